@@ -134,7 +134,7 @@ class Rig:
         for line in so.splitlines():
             if line.startswith('{"k":"done"'):
                 r = json.loads(line)['rc']
-                r = 'timeout' if r == -14 else ('skipped' if r == 99 else r)
+                r = 'timeout' if r == -14 else ('skipped' if r == 99 else ('no-verdict' if r == 98 else r))
                 out.append((r, trace, '\n'.join(noise)[-1500:]))
                 trace, noise = [], []
             elif line.startswith('{'):
@@ -173,6 +173,9 @@ def judge_sched(rig, schedule, programs, ctx_counts, result=None):
         # every deadlocking schedule costs ~12 s of waiting: once one is recorded, stop exploring
         raise Fail(f'{what}: skipped after a real deadlock was found in this run', 'deadlock-real')
     rc, trace, err = result if result is not None else rig.run_sched(schedule, programs)
+    if rc == 'no-verdict':
+        ctx_counts['inconclusive'] += 1
+        return trace, None
     if rc == 'timeout' or rc == 4:
         # 4: an actor blocked on something the scheduler does not own, gating was dropped and the run
         # then completed: the schedule is not decisive (no verdict)
@@ -198,6 +201,10 @@ def dfs(rig, programs, bound, ctx_counts, record, limit):
     seen = 0
     with ThreadPoolExecutor(max_workers=16) as ex:
         while frontier and seen < limit:
+            if ctx_counts['inconclusive'] > 60:
+                # the code under test blocks outside the scheduler's control at its scheduling
+                # points (every such run costs seconds and yields no verdict): give up, inconclusive
+                return seen, False
             batch, frontier = frontier[:4000], frontier[4000:]
 
             def chunk_job(pres):
